@@ -174,6 +174,7 @@ PROPS = {
     'C15': dict(
         runs=[dict(src='c15_io_faults.c', ldflags='-Wl,--wrap=read,--wrap=write'),
               dict(src='c15_io_faults.c', ldflags='-Wl,--wrap=read,--wrap=write', variant='vg', tool='memcheck', args_quick=['--stride', '8'], args_thorough=['--stride', '16'])],
+              # no plain (tool-less) run here: outside ASan and valgrind the live-heap figure comes from mallinfo2, whose arena bookkeeping moves for reasons of its own
         level='fault_enumeration',
         exhaustive=True,
         rule=('case = (format, workload in {write-close, open-read-seek-close, rdwr}, caller sample type, fault kind in {0 bytes, half the bytes, seek fails, '
@@ -274,7 +275,8 @@ PROPS = {
     ),
     'C14': dict(
         runs=[dict(src='c14_routes.c', ldflags='-Wl,--wrap=time,--wrap=gettimeofday'),
-              dict(src='c14_routes.c', ldflags='-Wl,--wrap=time,--wrap=gettimeofday', variant='vg', tool='memcheck', args_quick=['--stride', '8'], args_thorough=['--stride', '60'])],
+              dict(src='c14_routes.c', ldflags='-Wl,--wrap=time,--wrap=gettimeofday', variant='vg', tool='memcheck', args_quick=['--stride', '8'], args_thorough=['--stride', '60']),
+              dict(src='c14_routes.c', ldflags='-Wl,--wrap=time,--wrap=gettimeofday', variant='vg')],	# plain build, system allocator (see C03)
         level='exploration',
         rule=('case = (format, channels, variant): one generated file (16 variants = subsets of {strings, 52-82 KB JUNK chunk spliced in before the audio, truncated tail, damaged '
               'header byte}) opened through virtual I/O (reference), path, descriptor with close_desc 0 and 1, descriptor positioned at offsets 1/7/4096 inside a '
